@@ -342,8 +342,7 @@ def expand_aliases(
         seen = set()
     if id(node) in seen:
         node = copy(node)
-    else:
-        seen.add(id(node))
+    seen.add(id(node))
     if isinstance(node, yaml.SequenceNode):
         node.value = [expand_aliases(item, seen) for item in node.value]
     elif isinstance(node, yaml.MappingNode):
